@@ -102,7 +102,7 @@ func monitorRF(w *bufio.Writer, key string, f quic.QUICRandomFrames, data []byte
 	if fc.ping < pl || fc.ping > ph || fc.crypto < cl || fc.crypto > ch {
 		monfail(w, key+"/counts", fmt.Sprintf("frame counts out of the configured bounds: %d PING (want %d..%d), %d CRYPTO (want %d..%d)", fc.ping, pl, ph, fc.crypto, cl, ch), detail())
 	}
-	if len(payload) < int(f.Length) || (fc.padBytes > 0 && f.Length == 0) || (fc.padBytes > 0 && base == 0 && len(payload) != int(f.Length)) {
+	if len(payload) < int(f.Length) || (fc.padBytes > 0 && f.Length == 0) || (fc.padBytes > 0 && len(payload) != int(f.Length)) {
 		monfail(w, key+"/length", fmt.Sprintf("payload is %d bytes with %d PADDING bytes, Length=%d", len(payload), fc.padBytes, f.Length), detail())
 	}
 }
